@@ -1,8 +1,12 @@
 package main
 
 import (
+	"bufio"
 	"context"
 	"errors"
+	"io"
+	stdlog "log"
+	"net"
 	"net/http"
 	"net/http/httptest"
 	"os"
@@ -43,13 +47,39 @@ const c14Doc = `{
     "responses": {
       "200": {"description": "ok", "content": {"application/json": {"schema":
         {"type": "object", "required": ["id"], "properties": {"id": {"type": "integer"}}}}}},
+      "201": {"description": "created"}}}},
+  "/optional": {"get": {
+    "security": [{"key": []}, {}],
+    "responses": {
+      "200": {"description": "ok", "content": {"application/json": {"schema":
+        {"type": "object", "required": ["id"], "properties": {"id": {"type": "integer"}}}}}},
       "201": {"description": "created"}}}}
  }
 }`
 
-var c14Router = sync.OnceValue(func() routers.Router {
+// the second document: a global security requirement, inherited by /g and switched off by /gopen
+const c14DocG = `{
+ "openapi": "3.0.3",
+ "info": {"title": "g", "version": "1"},
+ "components": {"securitySchemes": {"key": {"type": "apiKey", "in": "header", "name": "X-Key"}}},
+ "security": [{"key": []}],
+ "paths": {
+  "/g": {"get": {"responses": {
+      "200": {"description": "ok", "content": {"application/json": {"schema":
+        {"type": "object", "required": ["id"], "properties": {"id": {"type": "integer"}}}}}},
+      "201": {"description": "created"}}}},
+  "/gopen": {"get": {
+    "security": [],
+    "responses": {
+      "200": {"description": "ok", "content": {"application/json": {"schema":
+        {"type": "object", "required": ["id"], "properties": {"id": {"type": "integer"}}}}}},
+      "201": {"description": "created"}}}}
+ }
+}`
+
+func c14MkRouter(src string) routers.Router {
 	loader := openapi3.NewLoader()
-	doc, err := loader.LoadFromData([]byte(c14Doc))
+	doc, err := loader.LoadFromData([]byte(src))
 	if err != nil {
 		panic("harness: c14 doc does not load: " + err.Error())
 	}
@@ -61,17 +91,35 @@ var c14Router = sync.OnceValue(func() routers.Router {
 		panic("harness: c14 router: " + err.Error())
 	}
 	return r
-})
+}
 
-var c14DocFile = sync.OnceValue(func() string {
+var c14Router = sync.OnceValue(func() routers.Router { return c14MkRouter(c14Doc) })
+var c14RouterG = sync.OnceValue(func() routers.Router { return c14MkRouter(c14DocG) })
+
+func c14MkFile(src string) string {
 	f, err := os.CreateTemp(".", "verif-c14-*.json")
 	if err != nil {
 		panic(err)
 	}
-	f.WriteString(c14Doc)
+	f.WriteString(src)
 	f.Close()
 	return f.Name()
-})
+}
+
+var c14DocFile = sync.OnceValue(func() string { return c14MkFile(c14Doc) })
+var c14DocFileG = sync.OnceValue(func() string { return c14MkFile(c14DocG) })
+
+// classes g_* are requests against the second document
+func c14IsG(class string) bool { return strings.HasPrefix(class, "g_") }
+
+// the handler currently registered behind http.DefaultServeMux (gate "vhandler_def": ValidationHandler.Load's default Handler)
+var c14MuxHandler http.Handler
+var c14MuxOnce sync.Once
+
+type c14PrimerKey struct{}
+
+// c14Sentinel is the value a scripted handler panics with
+type c14Sentinel struct{}
 
 type c14Call struct {
 	C   string `json:"c"`
@@ -88,6 +136,7 @@ type c14Case struct {
 		Gate     string `json:"gate"`
 		Opt      string `json:"opt"`
 		Primer   string `json:"primer"`
+		Auth     string `json:"auth"`
 	} `json:"cfg"`
 	Script []c14Call `json:"script"`
 }
@@ -135,8 +184,41 @@ func (c *c14Client) Flush() {
 	*c.log = append(*c.log, map[string]any{"ev": "C", "e": "F", "ct": c14AbsCT(c.h)})
 }
 
+// Hijack makes the client's writer an http.Hijacker (as net/http's HTTP/1 writer is); no scripted handler calls it
+func (c *c14Client) Hijack() (net.Conn, *bufio.ReadWriter, error) {
+	return nil, nil, errors.New("harness: not hijackable")
+}
+
+// c14Probe: the optional interfaces a handler finds on the writer it was given
+func c14Probe(w http.ResponseWriter) []any {
+	caps := []any{}
+	if _, ok := w.(http.Flusher); ok {
+		caps = append(caps, "flusher")
+	}
+	if _, ok := w.(http.Hijacker); ok {
+		caps = append(caps, "hijacker")
+	}
+	if _, ok := w.(io.ReaderFrom); ok {
+		caps = append(caps, "readerfrom")
+	}
+	if _, ok := w.(http.Pusher); ok {
+		caps = append(caps, "pusher")
+	}
+	if _, ok := w.(interface{ Unwrap() http.ResponseWriter }); ok {
+		caps = append(caps, "unwrap")
+	}
+	return caps
+}
+
 func c14Request(class string) *http.Request {
+	r, _ := c14RequestBody(class)
+	return r
+}
+
+func c14RequestBody(class string) (*http.Request, string) {
+	sent := ""
 	mk := func(method, url, body string) *http.Request {
+		sent = body
 		var r *http.Request
 		if body != "" {
 			r = httptest.NewRequest(method, url, strings.NewReader(body))
@@ -146,6 +228,11 @@ func c14Request(class string) *http.Request {
 		}
 		return r
 	}
+	r := c14RequestOf(class, mk)
+	return r, sent
+}
+
+func c14RequestOf(class string, mk func(method, url, body string) *http.Request) *http.Request {
 	switch class {
 	case "valid_post":
 		return mk("POST", "/items?n=1", `{"name":"a"}`)
@@ -164,6 +251,18 @@ func c14Request(class string) *http.Request {
 		return mk("GET", "/nope", "")
 	case "nf_method":
 		return mk("DELETE", "/items", "")
+	case "nf_options":
+		return mk("OPTIONS", "/items", "")
+	case "nf_head":
+		return mk("HEAD", "/items?n=1", "")
+	case "inv_nobody":
+		return mk("POST", "/items?n=1", "")
+	case "inv_ctype":
+		r := mk("POST", "/items?n=1", `{"name":"a"}`)
+		r.Header.Set("Content-Type", "text/plain")
+		return r
+	case "inv_noparam":
+		return mk("POST", "/items", `{"name":"a"}`)
 	case "inv_body":
 		return mk("POST", "/items?n=1", `{"name":1}`)
 	case "inv_param":
@@ -174,29 +273,101 @@ func c14Request(class string) *http.Request {
 		r := mk("GET", "/secure", "")
 		r.Header.Set("X-Key", "bad")
 		return r
+	case "sec_nokey":
+		return mk("GET", "/secure", "")
+	case "opt_anon":
+		return mk("GET", "/optional", "")
+	case "g_good":
+		r := mk("GET", "/g", "")
+		r.Header.Set("X-Key", "good")
+		return r
+	case "g_bad":
+		r := mk("GET", "/g", "")
+		r.Header.Set("X-Key", "bad")
+		return r
+	case "g_open":
+		return mk("GET", "/gopen", "")
 	}
 	panic("harness: unknown request class " + class)
+}
+
+var c14RealHandler http.Handler
+
+var c14Server = sync.OnceValue(func() *httptest.Server {
+	s := httptest.NewUnstartedServer(http.HandlerFunc(func(w http.ResponseWriter, r *http.Request) { c14RealHandler.ServeHTTP(w, r) }))
+	s.Config.ErrorLog = stdlog.New(io.Discard, "", 0)
+	s.Start()
+	return s
+})
+
+// c14Real sends the request of the case through a real HTTP client to a real net/http server running the gate
+func c14Real(gate http.Handler, req *http.Request, sent string) map[string]any {
+	srv := c14Server()
+	c14RealHandler = gate
+	var body io.Reader
+	if sent != "" {
+		body = strings.NewReader(sent)
+	}
+	r, err := http.NewRequest(req.Method, srv.URL+req.URL.RequestURI(), body)
+	if err != nil {
+		return map[string]any{"ev": "Real", "err": true, "status": 0, "body": ""}
+	}
+	for k, vs := range req.Header {
+		for _, v := range vs {
+			r.Header.Add(k, v)
+		}
+	}
+	resp, err := srv.Client().Do(r)
+	if err != nil {
+		return map[string]any{"ev": "Real", "err": true, "status": 0, "body": ""}
+	}
+	defer resp.Body.Close()
+	b, err := io.ReadAll(resp.Body)
+	if err != nil {
+		return map[string]any{"ev": "Real", "err": true, "status": 0, "body": ""}
+	}
+	return map[string]any{"ev": "Real", "err": false, "status": resp.StatusCode, "body": string(b)}
+}
+
+func c14KeyAuth(_ context.Context, in *openapi3filter.AuthenticationInput) error {
+	if in.RequestValidationInput.Request.Header.Get("X-Key") == "good" {
+		return nil
+	}
+	return errors.New("rejected")
 }
 
 func c14Run(c *Case) []any {
 	var tc c14Case
 	c.Decode(&tc)
+	if tc.Cfg.Auth == "" {
+		tc.Cfg.Auth = "callback" // cases recorded before the dimension existed
+	}
+	if tc.Cfg.Primer == "" {
+		tc.Cfg.Primer = "none"
+	}
 	var log []any
 	log = append(log, map[string]any{"ev": "cfg", "case": c.Idx, "cfg": tc.Cfg, "script": c14Script(tc.Script)})
+	muted := false // the second pass (real net/http transport) records its response only
+	put := func(m map[string]any) {
+		if !muted {
+			log = append(log, m)
+		}
+	}
+	primer := func(ctx context.Context) bool { return ctx.Value(c14PrimerKey{}) != nil } // callbacks of the OTHER requests are not this run's
 
-	opts := []openapi3filter.ValidatorOption{
-		openapi3filter.Strict(tc.Cfg.Strict),
-		openapi3filter.ValidationOptions(openapi3filter.Options{
-			IncludeResponseStatus: tc.Cfg.Opt == "include_status",
-			ExcludeResponseBody:   tc.Cfg.Opt == "exclude_body",
-			AuthenticationFunc: func(_ context.Context, in *openapi3filter.AuthenticationInput) error {
-				if in.RequestValidationInput.Request.Header.Get("X-Key") == "good" {
-					return nil
-				}
-				return errors.New("rejected")
-			},
-		}),
-		openapi3filter.OnLog(func(_ context.Context, msg string, _ error) {
+	var authFn openapi3filter.AuthenticationFunc // "nofunc" / "noopts": none
+	switch tc.Cfg.Auth {
+	case "callback":
+		authFn = c14KeyAuth
+	case "noop":
+		authFn = openapi3filter.NoopAuthenticationFunc
+	}
+	opts := []openapi3filter.ValidatorOption{openapi3filter.Strict(tc.Cfg.Strict)}
+	if tc.Cfg.ErrMode == "custom" {
+		opts = append(opts, openapi3filter.OnLog(func(ctx context.Context, msg string, _ error) {
+			if primer(ctx) {
+				return
+			}
 			cls := "other"
 			switch {
 			case strings.HasPrefix(msg, "validation error: failed to find route"):
@@ -208,33 +379,60 @@ func c14Run(c *Case) []any {
 			case msg == "failed to write response":
 				cls = "writefail"
 			}
-			log = append(log, map[string]any{"ev": "Log", "msg": cls})
-		}),
+			put(map[string]any{"ev": "Log", "msg": cls})
+		}))
+	} else {
+		// errMode "default": neither OnErr nor OnLog -- the Validator's own errFunc (http.Error) and logFunc (log.Printf)
+		stdlog.SetOutput(io.Discard)
+	}
+	if tc.Cfg.Auth != "noopts" {
+		opts = append(opts, openapi3filter.ValidationOptions(openapi3filter.Options{
+			IncludeResponseStatus:     tc.Cfg.Opt == "include_status",
+			ExcludeResponseBody:       tc.Cfg.Opt == "exclude_body",
+			MultiError:                tc.Cfg.Opt == "multi_error",
+			ExcludeRequestBody:        tc.Cfg.Opt == "excl_req_body",
+			ExcludeRequestQueryParams: tc.Cfg.Opt == "excl_query",
+			AuthenticationFunc:        authFn,
+		}))
 	}
 	if tc.Cfg.ErrMode == "custom" {
-		opts = append(opts, openapi3filter.OnErr(func(_ context.Context, w http.ResponseWriter, status int, code openapi3filter.ErrCode, _ error) {
-			log = append(log, map[string]any{"ev": "Err", "status": status, "code": int(code)})
+		opts = append(opts, openapi3filter.OnErr(func(ctx context.Context, w http.ResponseWriter, status int, code openapi3filter.ErrCode, _ error) {
+			if !primer(ctx) {
+				put(map[string]any{"ev": "Err", "status": status, "code": int(code)})
+			}
 			w.WriteHeader(status)
 			w.Write([]byte("X"))
 		}))
 	}
-	priming := false
-	handler := http.HandlerFunc(func(w http.ResponseWriter, _ *http.Request) {
-		if priming {
+	req, sent := c14RequestBody(tc.Cfg.ReqClass)
+	handler := http.HandlerFunc(func(w http.ResponseWriter, r *http.Request) {
+		if primer(r.Context()) {
 			switch tc.Cfg.Primer {
 			case "p204":
 				w.WriteHeader(204)
-			case "pbadresp":
+			case "pbadresp", "cbadresp":
 				w.Header().Set("Content-Type", "application/json")
 				w.Write([]byte("oops"))
 			}
 			return
 		}
-		log = append(log, map[string]any{"ev": "Enter"})
+		put(map[string]any{"ev": "Enter"})
 		// like io.CopyBuffer: every piece goes through one reused buffer (io.Writer implementations must not retain p)
 		chunk := make([]byte, 64)
 		for _, call := range tc.Script {
-			log = append(log, map[string]any{"ev": "H", "c": c14CallJSON(call)})
+			h := map[string]any{"ev": "H", "c": c14CallJSON(call)}
+			switch call.C {
+			case "Probe":
+				h["caps"] = c14Probe(w)
+			case "RB":
+				var b []byte
+				if r.Body != nil {
+					b, _ = io.ReadAll(r.Body)
+					r.Body.Close()
+				}
+				h["read"], h["sent"] = string(b), sent
+			}
+			put(h)
 			switch call.C {
 			case "SetCT":
 				w.Header().Set("Content-Type", c14CT[call.Ct])
@@ -243,40 +441,55 @@ func c14Run(c *Case) []any {
 			case "W":
 				n := copy(chunk, c14Bytes[call.Tok])
 				w.Write(chunk[:n])
+			case "Copy":
+				// a plain io.Reader (no WriterTo): io.Copy looks for ReaderFrom on w, then falls back to Read/Write rounds
+				io.Copy(w, struct{ io.Reader }{strings.NewReader(c14Bytes[call.Tok])})
 			case "F":
 				if f, ok := w.(http.Flusher); ok {
 					f.Flush()
 				}
+			case "FC":
+				http.NewResponseController(w).Flush()
+			case "Panic":
+				panic(c14Sentinel{})
 			}
 		}
 	})
 	client := &c14Client{h: http.Header{}, log: &log}
-	var sink http.ResponseWriter = client
-	if tc.Cfg.ErrMode == "default" {
-		// the default errFunc cannot be observed directly: observe it through a writer that
-		// reports http.Error's signature (status + text/plain body) as an Err event
-		sink = client
-	}
 	var gate http.Handler
-	if tc.Cfg.Gate == "vhandler" || tc.Cfg.Gate == "vhandler_mw" {
+	if tc.Cfg.Gate == "vhandler" || tc.Cfg.Gate == "vhandler_mw" || tc.Cfg.Gate == "vhandler_def" {
 		other := http.HandlerFunc(func(w http.ResponseWriter, _ *http.Request) {
-			log = append(log, map[string]any{"ev": "Other"}) // the handler behind the OTHER wrapper must never run
+			put(map[string]any{"ev": "Other"}) // the handler behind the OTHER wrapper must never run
 			w.WriteHeader(299)
 		})
 		var base http.Handler = handler
 		if tc.Cfg.Gate == "vhandler_mw" {
 			base = other
 		}
+		file := c14DocFile()
+		if c14IsG(tc.Cfg.ReqClass) {
+			file = c14DocFileG()
+		}
 		vh := &openapi3filter.ValidationHandler{
-			Handler: base,
-			File:    c14DocFile(),
-			AuthenticationFunc: func(_ context.Context, in *openapi3filter.AuthenticationInput) error {
-				if in.RequestValidationInput.Request.Header.Get("X-Key") == "good" {
-					return nil
-				}
-				return errors.New("rejected")
-			},
-			ErrorEncoder: (&openapi3filter.ValidationErrorEncoder{Encoder: openapi3filter.DefaultErrorEncoder}).Encode,
+			Handler:            base,
+			File:               file,
+			AuthenticationFunc: authFn,
+			ErrorEncoder:       (&openapi3filter.ValidationErrorEncoder{Encoder: openapi3filter.DefaultErrorEncoder}).Encode,
+		}
+		if tc.Cfg.ErrMode == "custom" {
+			vh.ErrorEncoder = func(_ context.Context, _ error, w http.ResponseWriter) {
+				put(map[string]any{"ev": "Err", "status": 499, "code": 0})
+				w.WriteHeader(499)
+				w.Write([]byte("X"))
+			}
+		}
+		if tc.Cfg.Gate == "vhandler_def" {
+			// nothing but the document: Load supplies http.DefaultServeMux, NoopAuthenticationFunc, DefaultErrorEncoder
+			vh = &openapi3filter.ValidationHandler{File: file}
+			c14MuxOnce.Do(func() {
+				http.DefaultServeMux.HandleFunc("/", func(w http.ResponseWriter, r *http.Request) { c14MuxHandler.ServeHTTP(w, r) })
+			})
+			c14MuxHandler = handler
 		}
 		if err := vh.Load(); err != nil {
 			panic("harness: c14 ValidationHandler.Load: " + err.Error())
@@ -288,21 +501,91 @@ func c14Run(c *Case) []any {
 			_ = vh.Middleware(other)
 		}
 	} else {
-		gate = openapi3filter.NewValidator(c14Router(), opts...).Middleware(handler)
+		router := c14Router()
+		if c14IsG(tc.Cfg.ReqClass) {
+			router = c14RouterG()
+		}
+		v := openapi3filter.NewValidator(router, opts...)
+		gate = v.Middleware(handler)
+		// one Validator, two wrappers: the request goes through the wrapper of the handler under test
+		_ = v.Middleware(http.HandlerFunc(func(w http.ResponseWriter, _ *http.Request) {
+			put(map[string]any{"ev": "Other"})
+			w.WriteHeader(299)
+		}))
 	}
-	if tc.Cfg.Primer != "" && tc.Cfg.Primer != "none" {
-		// an earlier request on the same middleware instance; what it did is not part of this run's trace
-		priming = true
+	primerReq := func() *http.Request {
 		class := "valid_post"
-		if tc.Cfg.Primer == "pbadreq" {
+		if tc.Cfg.Primer == "pbadreq" || tc.Cfg.Primer == "cbadreq" {
 			class = "inv_body"
 		}
-		guard(func() { gate.ServeHTTP(httptest.NewRecorder(), c14Request(class)) })
-		priming = false
-		log = log[:1]
+		r := c14Request(class)
+		return r.WithContext(context.WithValue(r.Context(), c14PrimerKey{}, true))
 	}
-	panicked, msg := guard(func() { gate.ServeHTTP(sink, c14Request(tc.Cfg.ReqClass)) })
-	end := map[string]any{"ev": "end", "panic": panicked, "finalCt": c14AbsCT(client.h)}
+	stop := make(chan struct{})
+	var wg sync.WaitGroup
+	switch tc.Cfg.Primer {
+	case "p204", "pbadresp", "pbadreq":
+		// an earlier request on the same middleware instance; what it did is not part of this run's trace
+		guard(func() { gate.ServeHTTP(httptest.NewRecorder(), primerReq()) })
+		log = log[:1]
+	case "cbadresp", "cbadreq":
+		// other requests on the same middleware instance at the same time (each with its own client)
+		started := make(chan struct{}, 2)
+		for g := 0; g < 2; g++ {
+			wg.Add(1)
+			go func() {
+				defer wg.Done()
+				first := true
+				for {
+					select {
+					case <-stop:
+						return
+					default:
+					}
+					func() {
+						defer func() { recover() }()
+						gate.ServeHTTP(httptest.NewRecorder(), primerReq())
+					}()
+					if first {
+						started <- struct{}{}
+						first = false
+					}
+				}
+			}()
+		}
+		<-started
+		<-started
+	}
+	var pv any
+	panicked, msg := guard(func() {
+		defer func() {
+			if pv = recover(); pv != nil {
+				panic(pv)
+			}
+		}()
+		gate.ServeHTTP(client, req)
+	})
+	close(stop)
+	wg.Wait()
+	_, hpanic := pv.(c14Sentinel)
+	// Second pass: the same gate and handler behind a real net/http server, asked by a real client.  What that client
+	// receives is logged next to the raw calls of the first pass, so that the specification's ClientModel (its reading of
+	// raw ResponseWriter calls) is itself judged against net/http.  Short behaviours and all with an informational status.
+	realPass := tc.Cfg.Primer == "none" && tc.Cfg.ReqClass != "valid_upgrade" && tc.Cfg.ReqClass != "nf_head" && !panicked
+	if realPass && len(tc.Script) > 2 {
+		realPass = false
+		for _, call := range tc.Script {
+			if call.C == "WH" && call.S < 200 {
+				realPass = true
+			}
+		}
+	}
+	if realPass {
+		muted = true
+		log = append(log, c14Real(gate, req, sent))
+		muted = false
+	}
+	end := map[string]any{"ev": "end", "panic": panicked, "hpanic": hpanic, "finalCt": c14AbsCT(client.h)}
 	if panicked {
 		end["panicMsg"] = msg
 	}
@@ -317,7 +600,7 @@ func c14CallJSON(c c14Call) map[string]any {
 		m["ct"] = c.Ct
 	case "WH":
 		m["s"] = c.S
-	case "W":
+	case "W", "Copy":
 		m["tok"] = c.Tok
 	}
 	return m
@@ -337,9 +620,15 @@ func init() {
 		Abnormal: func(c *Case, kind string) []any {
 			var tc c14Case
 			c.Decode(&tc)
+			if tc.Cfg.Auth == "" {
+				tc.Cfg.Auth = "callback"
+			}
+			if tc.Cfg.Primer == "" {
+				tc.Cfg.Primer = "none"
+			}
 			return []any{
 				map[string]any{"ev": "cfg", "case": c.Idx, "cfg": tc.Cfg, "script": c14Script(tc.Script)},
-				map[string]any{"ev": "end", "panic": true, "finalCt": "none", "panicMsg": kind},
+				map[string]any{"ev": "end", "panic": true, "hpanic": false, "finalCt": "none", "panicMsg": kind},
 			}
 		},
 	}
